@@ -353,6 +353,7 @@ func andLeavesOf(v ssa.Value, out *[]ssa.Value, depth int) {
 // decrypted message has exactly the key's length.
 func c23Extras3(c *Ctx) {
 	w := c.W
+	c23Extras4(c)
 	if fn := w.Fn("z/rsa.SignPSS"); fn != nil {
 		uses := map[ssa.Value][]string{}
 		for _, b := range fn.Blocks {
@@ -513,6 +514,9 @@ func (c *Ctx) loopSkipCut(rule string, fn *ssa.Function, label string, inLoop fu
 func nameFillRule(c *Ctx) {
 	w := c.W
 	if c.Prop == "C22" {
+		c22Extras4(c)
+	}
+	if c.Prop == "C22" {
 		// OriginalRDNS keeps the slice the decoder handed out: it must own its storage
 		c.borrow(c18Extras4, func(o *Obligation) bool { return o.Rule == "R-FRESH" })
 	}
@@ -639,6 +643,8 @@ func c17Extras3(c *Ctx) {
 // handshake transcript is never the hash that the truncated ClientHello is written to.
 func binderTranscriptRule(c *Ctx) {
 	w := c.W
+	ekmWriters(c)
+	sortParamRule(c, "z/tls")
 	n := 0
 	for _, fn := range w.FuncsOfPkg("z/tls") {
 		for _, in := range callsIn(fn, "(*z/tls.cipherSuiteTLS13).finishedHash") {
@@ -799,6 +805,7 @@ func c27Extras3(c *Ctx) {
 // just done: the ErrUnexpectedEOF return lies behind the update of N.
 func c25Extras3(c *Ctx) {
 	w := c.W
+	c25Extras4(c)
 	fn := w.Fn("(*z/tls.atLeastReader).Read")
 	if fn == nil {
 		c.Undecided("R-ORDER", "tls.atLeastReader.Read", "anchor", "-", "not found")
@@ -841,6 +848,7 @@ func c25Extras3(c *Ctx) {
 // coordinate width), as they do for the key exchange itself.
 func c28Extras3(c *Ctx) {
 	w := c.W
+	c28Extras4(c)
 	if fn := w.Fn("(*z/tls.Conn).verifyServerCertificate"); fn != nil {
 		c.loopSkipCut("R-SCAN", fn, "no element of the certificate list is passed over: every iteration stores the parsed certificate or leaves the function",
 			func(in ssa.Instruction) bool {
@@ -895,6 +903,7 @@ func c28Extras3(c *Ctx) {
 // ServerName must be able to replace it again).
 func c29Extras3(c *Ctx) {
 	w := c.W
+	c29Extras4(c)
 	fn := w.Fn("(*z/tls.SNIExtension).WriteToConfig")
 	if fn == nil {
 		c.Undecided("R-STATE", "tls.SNIExtension.WriteToConfig", "anchor", "-", "not found")
@@ -933,6 +942,7 @@ func c29Extras3(c *Ctx) {
 // (RFC 8446 4.2.11: it MUST be the last extension; unmarshal, marshalWithoutBinders and updateBinders rely on it).
 func c30Extras3(c *Ctx) {
 	w := c.W
+	c30Extras4(c)
 	c30GuardRule(c)
 	psk := int64(-1)
 	if p := w.Pkg("z/tls"); p != nil {
@@ -990,6 +1000,7 @@ func c30Extras3(c *Ctx) {
 // checkForResumption compares it with.
 func c31Extras3(c *Ctx) {
 	w := c.W
+	c31Extras4(c)
 	fn := w.Fn("(*z/tls.serverHandshakeState).sendSessionTicket")
 	if fn == nil {
 		c.Undecided("R-PROV", "tls.serverHandshakeState.sendSessionTicket", "anchor", "-", "not found")
@@ -1063,6 +1074,7 @@ func c30GuardRule(c *Ctx) {
 // an empty value, so decoding an empty value as nil loses a present zero and makes every later use dereference nil).
 func c33Extras3(c *Ctx) {
 	w := c.W
+	c33Extras4(c)
 	fn := w.Fn("(*z/json.cryptoParameter).UnmarshalJSON")
 	if fn == nil {
 		c.Undecided("R-VSET", "json.cryptoParameter.UnmarshalJSON", "anchor", "-", "not found")
